@@ -12,7 +12,7 @@ import pickle
 import sys
 import contextlib
 
-REPO = "/repo"
+REPO = os.environ.get("VERIF_REPO", "/repo")  # VERIF_REPO: developer override to evaluate a scratch copy
 CACHE = os.environ.get("VERIF_CACHE", "/verif/.cache")
 
 
